@@ -60,6 +60,19 @@ BigSeq(w, name) ==
        IN <<[how |-> "add-big", w |-> Struct(InsAt(w.fs, IF n >= 1 THEN 1 ELSE 0, big))],
             [how |-> "add-big", w |-> Struct(InsAt(InsAt(w.fs, n, big), 0, Fld(4201, Leaf("binary", BinOfLen(4096)))))]>>
 
+\* enums are OPEN: a number no member has must travel through a field of enum type, a list of enums and a map keyed by enums
+EnumSeq(S, d, w) ==
+  LET n == Len(w.fs)
+      odd == Leaf("i32", FromInt(4242, 32))
+      declTy(id) == LET idx == {q \in 1..Len(d.fields) : d.fields[q].id = id} IN d.fields[CHOOSE q \in idx : TRUE].ty
+      isDecl(id) == \E q \in 1..Len(d.fields) : d.fields[q].id = id
+      enumField(i) == isDecl(w.fs[i].id) /\ KindOf(S, declTy(w.fs[i].id)) = "enum" /\ w.fs[i].x.k = "i32"
+      enumList(i) == isDecl(w.fs[i].id) /\ KindOf(S, declTy(w.fs[i].id)) = "list" /\ w.fs[i].x.k = "list" /\ w.fs[i].x.et = T_I32
+                     /\ KindOf(S, ElemTy(S, declTy(w.fs[i].id))) = "enum" /\ Len(w.fs[i].x.es) > 0
+  IN SeqOfSet({[how |-> "enum-unknown", w |-> Struct([w.fs EXCEPT ![i] = Fld(w.fs[i].id, odd)])] : i \in {q \in 1..n : enumField(q)}})
+     \o SeqOfSet({[how |-> "enum-unknown", w |-> Struct([w.fs EXCEPT ![i] = Fld(w.fs[i].id, [w.fs[i].x EXCEPT !.es = [@ EXCEPT ![1] = odd]])])]
+                    : i \in {q \in 1..n : enumList(q)}})
+
 EvoSeq(w, declared) ==
   LET n == Len(w.fs) IN
   Between(w, declared) \o
@@ -100,7 +113,7 @@ CasesOfDef(sid, S, d) ==
   LET ty == [ref |-> d.name]
       vals == [v \in 1..3 |-> Val(S, ty, v - 1, 0)]
       base == [v \in 1..3 |-> Case(sid, S, d, "base", "v" \o ToString(v - 1), vals[v])]
-      evo == LET es == EvoSeq(vals[2], {d.fields[q].id : q \in 1..Len(d.fields)}) \o BigSeq(vals[2], d.name) IN [i \in 1..Len(es) |-> Case(sid, S, d, "evo", es[i].how, es[i].w)]
+      evo == LET es == EvoSeq(vals[2], {d.fields[q].id : q \in 1..Len(d.fields)}) \o BigSeq(vals[2], d.name) \o EnumSeq(S, d, vals[2]) IN [i \in 1..Len(es) |-> Case(sid, S, d, "evo", es[i].how, es[i].w)]
       dflt == IF d.d = "union" THEN <<>>
               ELSE <<[sid |-> sid, ty |-> d.name, kind |-> "dflt", how |-> "default", w |-> Struct(<<>>),
                       bin |-> <<0>>, binle |-> <<0>>, cs |-> <<0>>,
